@@ -35,6 +35,8 @@ package compiler
 //@   property C05 C09
 //@   mode panics
 //@   requires c != nil && i != nil
+//@   requires[index-wf] forallval(k, has(c.index, k) ==> int(c.index[k]) < len(c.constants) && c.constants[int(c.index[k])] == k)
+//@   ensures[index-wf] forallval(k, has(c.index, k) ==> int(c.index[k]) < len(c.constants) && c.constants[int(c.index[k])] == k)
 //@   ensures[len] len(r) == 2
 //@   ensures[in-range] int(r[0]) + 256*int(r[1]) < len(c.constants) && len(c.constants) <= 65535 + 1
 //@   ensures[holds] c.constants[int(r[0]) + 256*int(r[1])] == i
